@@ -289,6 +289,7 @@ func min(a, b int) int {
 
 func compDec(o *out, seed uint64, tier string) {
 	r := newRng(seed, "dec")
+	defer compDecBig(o, newRng(seed, "decbig"), tier)
 	n := 2500
 	if tier == "thorough" {
 		n = 60000
